@@ -29,7 +29,7 @@ ASSUMPTIONS = ["field values are canonical for their type (render = identity on 
 RULE = ("messages generated from the dumped metadata: every message type, mandatory fields plus a random optional subset, "
         "values per field type, groups with 0..3 elements nested to the schema's depth, random insertion order; all insertion "
         "permutations of small messages; large (1.1 KB .. 7.9 KB) messages of bytes >= 0x80 (0xff, random, UTF-8 Cyrillic/CJK; ASCII controls) in string fields and in groups of text lines; BodyLength boundaries 99/100/101 and 999/1000/1001; second encode (ENC2) and "
-        "elements without their first field as known-finding classes; RT cases decode the real bytes on both sides. "
+        "elements without their first field as known-finding classes; A->copy_legal(B) across message types followed by B's own insertions (XCOPY), all ordered pairs of types sharing >= 3 fields, preferring pairs whose schema orders differ; RT cases decode the real bytes on both sides. "
         "non-trivial = an OK result with at least 8 tokens; distinct = distinct case lines")
 
 
@@ -120,6 +120,45 @@ def gen_cases(rng, tier):
         # an independent byte sum (wire_ok uses C07's specification sum) sees a wrong CheckSum
         for cls, mt, hdr, body, trl in G.highbyte_messages(meta, rng, max_types=6 if thorough else 4):
             cs.append(Case(px + "ENC " + G.ser_msg(mt, hdr, body, trl), cls))
+        # copy_legal as the insertion path (the idiom of the example servers: NewOrderSingle -> ExecutionReport):
+        # A->copy_legal(B) with B of ANOTHER message type, then B's own fields; B must encode in B's schema order
+        def same_group(oa, ob):
+            ta, tb = meta.traits.get(oa, []), meta.traits.get(ob, [])
+            if [(t.fnum, t.pos) for t in ta] != [(t.fnum, t.pos) for t in tb]:
+                return False
+            ga, gb = meta.groups.get(oa, {}), meta.groups.get(ob, {})
+            return set(ga) == set(gb) and all(same_group(ga[k], gb[k]) for k in ga)
+
+        def positioned_fields(mt):
+            return {t.fnum: t for t in meta.traits.get(mt, []) if t.flags & 4}
+        pairs = []
+        for a in types:
+            fa = positioned_fields(a)
+            for b in types:
+                if a == b:
+                    continue
+                fb = positioned_fields(b)
+                shared = [f for f in fa if f in fb and (not fa[f].group or (fb[f].group and f in meta.groups.get(a, {})
+                          and f in meta.groups.get(b, {}) and same_group(meta.groups[a][f], meta.groups[b][f])))
+                          and fa[f].group == fb[f].group]
+                # the order must be able to differ: some shared pair whose relative position differs between the types
+                differ = any((fa[x].pos < fa[y].pos) != (fb[x].pos < fb[y].pos) for x in shared for y in shared if x < y)
+                if len(shared) >= 3:
+                    pairs.append((a, b, set(shared), differ))
+        pairs.sort(key=lambda p: (not p[3], -len(p[2])))
+        xg = G.MsgGen(meta, rng, p_opt=0.5)
+        chosen_pairs = pairs[:60 if thorough else 25] + [rng.choice(pairs) for _ in range(200 if thorough else 60)] if pairs else []
+        for a, b, shared, differ in chosen_pairs:
+            mta, hda, bda, tra = xg.message(a, max_wire=3000)
+            bda = [f for f in bda if f.fnum in shared or (meta.trait(a, f.fnum).flags & 4)]
+            bda = [f for f in bda if meta.trait(a, f.fnum).flags & 4]
+            mtb, hdb, bdb, trb = xg.message(b, max_wire=3000)
+            copied = {f.fnum for f in bda if f.fnum in shared}
+            # what copy_legal will not bring: B's own fields (never an unpositioned -F field, never one legal in both)
+            bdb = [f for f in bdb if f.fnum not in copied and (meta.trait(b, f.fnum).flags & 4)
+                   and not (f.fnum in {x.fnum for x in bda} and meta.trait(b, f.fnum) is not None)]
+            cs.append(Case(px + "XCOPY " + G.ser_msg(mta, hda, bda, tra) + " " + G.ser_msg(mtb, hdb, bdb, trb),
+                           "copy-legal-%s" % ("reorder" if differ else "same-order")))
         # the hypotheses of c02_wellformed (wf_ctx of the message type, wf_msg, fresh) must hold for
         # generated well-formed objects: message types with -F fields that lack the position bit
         # are outside the theorem (see known finding unpositioned-order) and are skipped here
@@ -170,7 +209,7 @@ def c_second_encode(case, r, m):
 
 def c_no_delimiter(case, r, m):
     meta, op, spec = _spec_of(case)
-    if op not in ("ENC", "RT", "ENC2"):
+    if op not in ("ENC", "RT", "ENC2", "XCOPY"):
         return False
     mt, hdr, body, trl = G.parse_msg(spec)
     return G.lacks_delimiter(meta, mt, body) or G.lacks_delimiter(meta, "header", hdr) or G.lacks_delimiter(meta, "trailer", trl)
